@@ -69,7 +69,8 @@ pub fn monitored(idx: u64, input_len: u64, out: &mut CaseOut, counters: &mut BTr
 struct WorkerProc { child: Child, stdin: std::process::ChildStdin, stdout: BufReader<std::process::ChildStdout>, stderr_path: String }
 
 fn spawn(prop: &str, tier: &str, seed: u64, slot: usize, extra_env: &[(String, String)]) -> WorkerProc {
-    let exe = std::env::current_exe().expect("current_exe");
+    // a sanitizer lane runs the same worker protocol from a differently built binary
+    let exe = match extra_env.iter().find(|(k, _)| k == "VERIF_WORKER_EXE") { Some((_, v)) => std::path::PathBuf::from(v), None => std::env::current_exe().expect("current_exe") };
     let stderr_path = format!("{}/harness/target/worker-{}-{}-{}.stderr", crate::run::verif_root(), prop, std::process::id(), slot);
     let errf = std::fs::File::create(&stderr_path).expect("stderr file");
     let mut cmd = Command::new(exe);
@@ -86,8 +87,13 @@ pub struct Crash { pub idx: u64, pub kind: String, pub entry: String, pub detail
 /// Execute cases 0..n in children. `describe(idx)` (parent side, deterministic regeneration) gives the
 /// label string and a witness for a case that killed its worker.
 pub fn run_cases(run: &Run, prop: &str, n: u64, chunk: u64, describe: &(dyn Fn(u64) -> (String, Value) + Sync)) {
+    run_cases_lane(run, prop, 0, n, chunk, describe, &[], "");
+}
+
+/// Same, for the index range lo..n, optionally with a different worker binary / environment (sanitizer lanes).
+pub fn run_cases_lane(run: &Run, prop: &str, lo: u64, n: u64, chunk: u64, describe: &(dyn Fn(u64) -> (String, Value) + Sync), env: &[(String, String)], lane: &str) {
     let tier = if run.quick() { "quick" } else { "thorough" };
-    let next = AtomicU64::new(0);
+    let next = AtomicU64::new(lo);
     let workers = crate::par::threads();
     let total_counters: Mutex<BTreeMap<String, u64>> = Mutex::new(BTreeMap::new());
     let wall_limit = Duration::from_secs(std::env::var("VERIF_CASE_WALL_S").ok().and_then(|s| s.parse().ok()).unwrap_or(45));
@@ -95,7 +101,7 @@ pub fn run_cases(run: &Run, prop: &str, n: u64, chunk: u64, describe: &(dyn Fn(u
         for slot in 0..workers {
             let (next, total_counters) = (&next, &total_counters);
             sc.spawn(move || {
-                let mut wp = spawn(prop, tier, run.seed, slot, &[]);
+                let mut wp = spawn(prop, tier, run.seed, slot, env);
                 loop {
                     let lo = next.fetch_add(chunk, Ordering::Relaxed);
                     if lo >= n { break; }
@@ -151,7 +157,7 @@ pub fn run_cases(run: &Run, prop: &str, n: u64, chunk: u64, describe: &(dyn Fn(u
                         // the worker died (or was killed by the watchdog) while running `begun`
                         let status = wp.child.wait().ok();
                         let stderr_tail = std::fs::read_to_string(&wp.stderr_path).unwrap_or_default();
-                        let tail: String = stderr_tail.lines().rev().take(6).collect::<Vec<_>>().into_iter().rev().collect::<Vec<_>>().join(" | ");
+                        let tail: String = stderr_tail.lines().filter(|l| !l.trim().is_empty()).rev().take(if stderr_tail.contains("Sanitizer") { 400 } else { 6 }).collect::<Vec<_>>().into_iter().rev().collect::<Vec<_>>().join(" | ");
                         let idx = begun.unwrap_or(cur);
                         run.eval();
                         if killed.load(Ordering::Relaxed) {
@@ -161,11 +167,11 @@ pub fn run_cases(run: &Run, prop: &str, n: u64, chunk: u64, describe: &(dyn Fn(u
                             let (labels, wit) = describe(idx);
                             // crashes are identified by kind + the read entry point that was executing (the case labels go into the witness)
                             let _ = &labels;
-                            let sig = format!("{}|crash|{}|entry={}", prop, kind, entry);
+                            let sig = if lane.is_empty() { format!("{}|crash|{}|entry={}", prop, kind, entry) } else { format!("{}|{}|crash|{}|entry={}", prop, lane, kind, entry) };
                             run.violation(&sig, &format!("worker died on case {}: {} {} ; stderr: {}", idx, kind, extra, tail.chars().take(300).collect::<String>()), json!({"idx": idx, "labels": labels, "case": wit}));
                         }
                         cur = idx + 1;
-                        wp = spawn(prop, tier, run.seed, slot, &[]);
+                        wp = spawn(prop, tier, run.seed, slot, env);
                     }
                 }
                 drop(wp.stdin);
@@ -190,7 +196,9 @@ fn classify(xline: &Option<String>, stderr_tail: &str, status: Option<std::proce
         extra = x.clone();
     }
     if kind == "abort" || kind.is_empty() {
-        if stderr_tail.contains("overflowed its stack") { kind = "stack-overflow".into(); }
+        if stderr_tail.contains("AddressSanitizer") { kind = format!("asan-{}", stderr_tail.split("AddressSanitizer: ").nth(1).and_then(|s| s.split_whitespace().next()).unwrap_or("report")); }
+        else if stderr_tail.contains("ThreadSanitizer") { kind = "tsan-report".into(); }
+        else if stderr_tail.contains("overflowed its stack") { kind = "stack-overflow".into(); }
         else if stderr_tail.contains("memory allocation of") { kind = "alloc-failed".into(); }
         else if kind.is_empty() {
             kind = match status { Some(s) => match (s.signal(), s.code()) { (Some(sig), _) => format!("signal-{}", sig), (_, Some(c)) => format!("exit-{}", c), _ => "died".into() }, None => "died".into() };
